@@ -13,6 +13,7 @@ import (
 	"errors"
 	"fmt"
 	"io"
+	"log"
 	"reflect"
 	"runtime"
 	"strings"
@@ -48,7 +49,7 @@ func (o Op) String() string {
 }
 
 // OpKinds lists the call kinds.
-var OpKinds = []string{"decode", "decodeopts", "chained", "integrity", "headerfileid", "decodefault", "encode", "encodebad", "encodefw"}
+var OpKinds = []string{"decode", "decodeopts", "chained", "chainedopts", "decodelogger", "integrity", "headerfileid", "decodefault", "encode", "encodebad", "encodefw"}
 
 // faultAts are the byte counts after which the reader of a "decodefault"
 // call fails with an error of its own (inside the header after the size
@@ -120,6 +121,20 @@ func Run(p *Pool, op Op, files map[int]*fit.File) (res string) {
 			sb.WriteString("--\n")
 		}
 		return sb.String()
+	case "chainedopts":
+		// options given to DecodeChained (the same shared option values)
+		fs, err := fit.DecodeChained(bytes.NewReader(p.Bytes[op.Idx]), sharedOpts...)
+		var sb strings.Builder
+		fmt.Fprintf(&sb, "err=%s n=%d\n", errText(err), len(fs))
+		for _, f := range fs {
+			sb.WriteString(digestFile(f))
+			sb.WriteString("--\n")
+		}
+		return sb.String()
+	case "decodelogger":
+		// a debug logger (its output is discarded; what Decode returns is compared)
+		f, err := fit.Decode(bytes.NewReader(p.Bytes[op.Idx]), fit.WithLogger(log.New(io.Discard, "", 0)))
+		return "err=" + errText(err) + "\n" + digestFile(f)
 	case "decodefault":
 		// a reader that fails with an error of its own, different for every
 		// input: what the call reports must be about this reader
